@@ -436,8 +436,17 @@ _EXT_MAKE = {}
 # hashes, AES, padding, random, xor  (uninterpreted; algebraic laws by rewriting on provenance)
 # ===============================================================================================
 
+def _as_bytes(I, v):
+    """bytes view of a value for the library models; state with an unknown history becomes arbitrary bytes"""
+    v = I.resolve(v)
+    from .values import VAny as _VAny
+    if isinstance(v, _VAny):
+        return B.make_bytes(I, [v], "bytes")
+    return v
+
+
 def _hash_digest(I, algo, n, data: VBytes):
-    data = I.resolve(data)
+    data = _as_bytes(I, data)
     if data.is_concrete():
         import hashlib
         return VBytes.lit(getattr(hashlib, algo)(data.concrete()).digest())
@@ -473,7 +482,7 @@ def hash_call(I, fv, args, kw):
             return VStr(c=d.concrete().hex())
         return I.opaque_str("hex", d.key())
     if name == "update":
-        o.meta["data"] = concat(o.meta["data"], I.resolve(args[0]))
+        o.meta["data"] = concat(_as_bytes(I, o.meta["data"]), _as_bytes(I, args[0]))
         return NONE
     raise Unsupported(f"hash method {name}")
 
